@@ -101,7 +101,7 @@ class Prop(BaseProp):
             return FAMILIES[mbre](r, inner), inner
         b = Builder(rng, p_doc=0.5, max_depth=4, max_items=4, mkparam=mkparam, compound_generic=False,
                     kinds=["cpp_class", "cpp_class", "cpp_class", "function", "plain", "set", "block"], p_clone=0.08,
-                    class_arg_variants=True, virtual_members=True, p_doc_impl=0.2, trigger=":keyword", p_trigger=0.15)
+                    class_arg_variants=True, virtual_members=True, p_doc_impl=0.2, trigger=":keyword", p_trigger=0.15, p_end_doc=0.1)
         nr = self.NR[self.tier]
         if idx < nr:
             mod = b.module()
